@@ -41,7 +41,7 @@ Proof.
   - injection H as <-. reflexivity.
   - destruct (find_trait fp f) as [tr|]; [|discriminate].
     destruct (t_suppress tr); [apply IH; assumption|].
-    unfold field_bytes. destruct (t_group tr && has_group_count v).
+    unfold field_bytes. destruct (t_group tr && has_group_count_c c f v).
     + destruct (map_find f gts) as [[els|]|] eqn:Eg; try discriminate.
       destruct (nodes_of c fp gts pos) as [ns'|]; [|discriminate]. injection H as <-.
       rewrite (Hg f els Eg). cbn [bind]. rewrite (IH ns' eq_refl). cbn [bind flat_map nbytes].
